@@ -266,6 +266,12 @@ func run(c *eng.Ctx) {
 			nt := runMixedGroupCycles(c, idx)
 			c.R.End(idx, eng.Hash("c14-mixed-groups"), nt)
 		}
+		if idx := len(list) + 405; c.Mine(idx) {
+			settle(procBase)
+			c.R.Begin(idx)
+			nt := runFailingCloseCycles(c, idx)
+			c.R.End(idx, eng.Hash("c14-failing-close"), nt)
+		}
 		if idx := len(list) + 404; c.Mine(idx) {
 			settle(procBase)
 			c.R.Begin(idx)
